@@ -629,7 +629,10 @@ def build_cases(prop, tier, rng):
     elif prop == "C12":
         n = grow(60) if q else 600
         # g16: members sharing boundary segments (invalid on purpose: determinism is claimed for all operands)
-        out.append(("c12", plans.plan_core("C12", rng, corpus_pairs(80) + gen_pairs(rng, fams_all + ["g15", "g16", "g15", "g16"], n)), False))
+        # a polygon with 70 holes (containers that change behaviour beyond some size), crossings next to end points (g5)
+        sq = lambda x0, y0, x1, y1: [[(x0, y0), (x1, y0), (x1, y1), (x0, y1), (x0, y0)]]
+        many = [("g1", [sq(0, 0, 100, 100)], [sq(3 + 9 * (k % 10), 3 + 9 * (k // 10), 5 + 9 * (k % 10), 5 + 9 * (k // 10)) for k in range(70)])]
+        out.append(("c12", plans.plan_core("C12", rng, corpus_pairs(80) + many + gen_pairs(rng, fams_all + ["g15", "g16", "g15", "g16", "g5", "g5", "g14"], n)), False))
     elif prop in ("C13", "C14"):
         n = grow(200) if q else 5000
         pairs = corpus_pairs(60) + structural_pairs() + gen_pairs(rng, fams_all, n)
